@@ -13,6 +13,10 @@ CLAIMS = {
    text="Theorems in Properties/C12.v prove, for every 0 <= n < 2^64 and both prefix systems, about the Coq model of FormatNumber: exact printing below the first prefix, largest-prefix choice, half-unit error bound, >= 3 significant digits, numeral width <= 5, and monotonicity of the rendered magnitude (case analysis over all prefix/precision regimes with rhe_mono). The model is tied to the code by exact string comparison on ~10^5 boundary-structured values per run, and every implementation output is judged against the property text with exact rationals.",
    note="Trusted: Coq kernel, extraction, harness; fmt %d and bits.Mul64/Div64 are modelled as exact integer arithmetic. The double-rounding defect found by this check was repaired (fix: commit 8ecbac0 in /repo); C12_float_version_refuted documents it.",
    technique="Coq proof on hand-written executable model + differential correspondence + rational oracle"),
+ "C16": dict(
+   text="Theorems in Properties/C16.v: parse(serialise(entries)) = entries for every tree entry list (modes < 2^32 printed in octal, names without NUL, 20-byte ids), and totality on arbitrary bytes (never Panic) for the tree, commit, tag, for-each-ref line and cat-file header parsers, on a model that makes every Go slice/index operation partial. Tied to the code by differential runs (generated objects, every truncation, byte mutations) with panic recovery, plus a generator-side round-trip oracle. The header-extraction theorem for commits/tags (continuation lines, message) is checked by the generator oracle but not yet proved.",
+   note="Trusted: Coq kernel, extraction, harness; strconv.ParseUint/hex.DecodeString/strings.Split modelled. ParseBatchHeader panicked on short lines before fix ec7f98a (C16_batch_header_old_refuted).",
+   technique="Coq proof on hand-written executable model + differential correspondence with fuzzing"),
 }
 
 m = {
